@@ -204,13 +204,33 @@ static void fractionalise(Rng& g, LPModel& M)
 
 static ParamSet floatConfig(Rng& g)
 {
-   ParamSet p = randomAlgConfig(g, 0.35);
-   // Forest-Tomlin only: the product-form update has a known out-of-bounds defect (DESIGN section 6, suspect 11) that is C10's
-   // business; the least-squares scaler has a known crash on small LPs (suspect 12, C09).  Neither is excluded from this
-   // property's claim for any reason other than that a crash of the sequential baseline would hide everything else.
-   p.i.erase(SoPlex::FACTOR_UPDATE_TYPE);
-   if(p.i.count(SoPlex::SCALER) && p.i[SoPlex::SCALER] == SoPlex::SCALER_LEASTSQ) p.i[SoPlex::SCALER] = SoPlex::SCALER_GEO8;
-   if(g.chance(0.5)) p.i[SoPlex::TIMER] = g.range(0, 2);
+   // The property's quantifier names scalers, simplifiers and pricers; ratio testers, algorithm, representation, hyper pricing,
+   // polishing, timers and random seeds are added.  Left at their defaults: the basis-update type, the crash-basis starters and the
+   // least-squares scaler, which crash single-threaded on random small LPs (DESIGN section 6, suspects 11, 12; SPxWeightST::generate) --
+   // other properties' business, and a crash of the sequential baseline would hide everything else here.
+   static const std::vector<ParamDim> dims =
+   {
+      {'i', SoPlex::SCALER, {0, 1, 2, 3, 4, 6}},
+      {'i', SoPlex::SIMPLIFIER, {0, 1, 3}},
+      {'i', SoPlex::PRICER, {0, 1, 2, 3, 4, 5}},
+      {'i', SoPlex::RATIOTESTER, {0, 1, 2, 3}},
+      {'i', SoPlex::ALGORITHM, {0, 1}},
+      {'i', SoPlex::REPRESENTATION, {0, 1, 2}},
+      {'i', SoPlex::HYPER_PRICING, {0, 1, 2}},
+      {'i', SoPlex::SOLUTION_POLISHING, {0, 1, 2}},
+      {'i', SoPlex::TIMER, {0, 1, 2}},
+      {'b', SoPlex::PERSISTENTSCALING, {0, 1}},
+      {'b', SoPlex::ROWBOUNDFLIPS, {0, 1}},
+      {'b', SoPlex::FULLPERTURBATION, {0, 1}},
+      {'b', SoPlex::ENSURERAY, {0, 1}},
+   };
+   ParamSet p;
+   for(auto& d : dims) if(g.chance(d.id == SoPlex::SCALER || d.id == SoPlex::SIMPLIFIER || d.id == SoPlex::PRICER ? 0.7 : 0.3)) setDim(p, d, g.pick(d.vals));
+   if(g.chance(0.4))
+   {
+      p.hasSeed = true;
+      p.seed = (unsigned)g.range(0, 1000);
+   }
    p.normalise();
    return p;
 }
@@ -628,18 +648,29 @@ struct Exec
    }
 
    // ---- building blocks
+   std::vector<SoPlex*> live;
    SoPlex* create()
    {
       SoPlex* sp = nullptr;
       call(EK_CTOR, [&] { sp = new SoPlex(); });
+      live.push_back(sp);
       attachLog(*sp);
       L.cnt["objects.created"]++;
       return sp;
    }
    void destroy(SoPlex*& sp)
    {
+      live.erase(std::remove(live.begin(), live.end(), sp), live.end());
       call(EK_DTOR, [&] { delete sp; });
       sp = nullptr;
+   }
+   void cleanup()      // after an exception / divergence: destroy what the aborted segment left behind
+   {
+      while(!live.empty())
+      {
+         SoPlex* sp = live.back();
+         destroy(sp);
+      }
    }
    void modifyReal(SoPlex& sp, int nmods)
    {
@@ -767,12 +798,22 @@ struct Exec
    {
       std::string path = outPrefix + tag + (mpsFormat ? ".mps" : ".lp");
       bool ok = false;
+      std::string exc;
       call(EK_WRITE, [&]
       {
-         ok = rational ? sp.writeFileRational(path.c_str(), nullptr, nullptr, nullptr) : sp.writeFileReal(path.c_str(), nullptr, nullptr, nullptr, true);
+         try
+         {
+            ok = rational ? sp.writeFileRational(path.c_str(), nullptr, nullptr, nullptr) : sp.writeFileReal(path.c_str(), nullptr, nullptr, nullptr, true);
+         }
+         catch(const SPxException& e)      // e.g. the MPS writer throws on a free row: part of the observable result
+         {
+            exc = e.what();
+            L.cnt["writeFile.exceptions"]++;
+         }
       });
       Hh h;
       h.i(ok);
+      h.s(exc);
       h.s(readAll(path));
       unlink(path.c_str());
       step(mpsFormat ? ST_WRITE_MPS : ST_WRITE_LP, h.h);
@@ -841,6 +882,7 @@ struct Exec
          // copy construction / assignment (floating-point objects only: exact-mode copies have a known C17 defect)
          SoPlex* cp = nullptr;
          call(EK_COPY, [&] { cp = new SoPlex(*sp); });
+         live.push_back(cp);
          L.cnt["objects.copied"]++;
          Hh h;
          h.u64(lpDigestReal(*cp));
@@ -851,16 +893,16 @@ struct Exec
          h.u64(solveDigestReal(*cp, st2));
          h.u64(lpDigestReal(*sp));        // the source is unchanged by what was done to the copy
          step(ST_COPY, h.h);
+         // assignment: exercised for the race detector only.  What the assignee reports (LP read-back, plug-in names, solve) varies
+         // from run to run even when the script runs ALONE (measured: the digest of the assignee failed the run-alone-twice
+         // control in ~5% of the scripts; solving it after its source is destroyed crashes) -- operator= is C17's business, so
+         // nothing read from the assignee enters the digest; it is destroyed before its source.
          SoPlex* as = create();
          call(EK_COPY, [&] { *as = *cp; });
-         Hh h2;
-         h2.u64(lpDigestReal(*as));
-         h2.u64(paramDigest(*as));
-         destroy(cp);
-         call(EK_OPT, [&] { st2 = (int)as->optimize(); });
-         h2.u64(solveDigestReal(*as, st2));
-         step(ST_ASSIGN, h2.h);
+         L.cnt["objects.assigned"]++;
+         step(ST_ASSIGN, 0);
          destroy(as);
+         destroy(cp);
       }
       destroy(sp);
    }
@@ -960,10 +1002,15 @@ struct Exec
          okp = sp->setRealParam(SoPlex::OPTTOL, 0.0, true) && okp;
          okp = sp->setBoolParam(SoPlex::PRECISION_BOOSTING, boosted, true) && okp;
          if(noIR) okp = sp->setBoolParam(SoPlex::ITERATIVE_REFINEMENT, false, true) && okp;
-         if(g.chance(0.3)) okp = sp->setBoolParam(SoPlex::RATFAC, false, true) && okp;
-         if(g.chance(0.3)) okp = sp->setBoolParam(SoPlex::RATREC, false, true) && okp;
-         if(g.chance(0.3)) okp = sp->setBoolParam(SoPlex::LIFTING, true, true) && okp;
-         if(g.chance(0.3)) okp = sp->setBoolParam(SoPlex::EQTRANS, true, true) && okp;
+         // one of rational reconstruction / rational factorization stays on (with both off a zero tolerance is unreachable)
+         {
+            int rr = g.range(0, 3);
+            if(rr == 1) okp = sp->setBoolParam(SoPlex::RATFAC, false, true) && okp;
+            if(rr == 2) okp = sp->setBoolParam(SoPlex::RATREC, false, true) && okp;
+         }
+         okp = sp->setIntParam(SoPlex::REFLIMIT, 300, true) && okp;     // logical bound on refinement rounds (never reached normally)
+         // (lifting / equality transformation are left at their defaults: re-solving a modified LP with lifting on crashes
+         //  single-threaded in _project(), which is not this property's business)
          okp = sp->setIntParam(SoPlex::ITERLIMIT, 20000, true) && okp;
       });
       {
@@ -988,17 +1035,18 @@ struct Exec
          call(EK_LOAD, [&] { loadRational(*sp, sc.MX, mode); });
          step(ST_LOAD_RAT, lpDigestRational(*sp));
       }
-      int ek = boosted ? EK_EXACTB : EK_EXACT, stp = boosted ? ST_OPT_EXACTB : ST_OPT_EXACT;
-      int st = 0;
-      call(ek, [&] { st = (int)sp->optimize(); });
-      step(stp, solveDigestRational(*sp, st));
-      modifyRational(*sp, g.range(1, 3));
+      // modifications are applied to the freshly filled LP and the object is solved once: modifying / re-solving an object after
+      // an exact solve crashes single-threaded in several ways (lifting, unboundedness transformation, changeElement) that are
+      // the business of C03/C06/C07, and a crashing sequential baseline would hide everything else here
+      modifyRational(*sp, g.range(0, 3));
       {
          Hh h;
          h.u64(lpDigestRational(*sp));
          h.u64(lpDigestReal(*sp));
          step(ST_MODIFY_RAT, h.h);
       }
+      int ek = boosted ? EK_EXACTB : EK_EXACT, stp = boosted ? ST_OPT_EXACTB : ST_OPT_EXACT;
+      int st = 0;
       call(ek, [&] { st = (int)sp->optimize(); });
       step(stp, solveDigestRational(*sp, st));
       writeAndDigest(*sp, true, false, boosted ? "xb" : "x");
@@ -1074,9 +1122,11 @@ static void threadBody(const Script* sc, TLog* L, const std::vector<DigItem>* ex
       catch(const Diverged&)
       {
          dead = true;
+         ex.cleanup();
       }
       catch(const std::exception& e)
       {
+         ex.cleanup();
          // an escaping exception is part of the observable result: same in both runs or a divergence
          Hh h;
          h.s(e.what());
@@ -1092,6 +1142,7 @@ static void threadBody(const Script* sc, TLog* L, const std::vector<DigItem>* ex
       }
       catch(...)
       {
+         ex.cleanup();
          L->cnt["exceptions"]++;
          try
          {
@@ -1187,9 +1238,20 @@ static std::string describeDivergence(const Script& sc, const std::vector<DigIte
 static const int kTs[5] = {2, 4, 8, 16, 32};
 
 // write the input files of a script with SoPlex's own writers (main thread, before anything runs concurrently)
+static LPModel noFreeRows(LPModel M)      // SoPlex's MPS writer throws on a free row
+{
+   for(int i = 0; i < M.m; i++) if(isNInf(M.lhs[i]) && isPInf(M.rhs[i])) M.rhs[i] = 1000;
+   return M;
+}
 static bool writeInputs(Script& sc, const std::string& pfx)
 {
    bool ok = true;
+   if(sc.mps)
+   {
+      sc.MF = noFreeRows(sc.MF);
+      sc.MA = noFreeRows(sc.MA);
+      sc.MX = noFreeRows(sc.MX);
+   }
    {
       SoPlex sp;
       quiet(sp);
@@ -1291,6 +1353,7 @@ static void runCase(long long k, int reps)
       }
    }
    progress("seqdone");
+   if(cli.extra.count("seqonly")) reps = 0;
    // ---- concurrent repetitions
    for(int rep = 0; rep < reps; rep++)
    {
